@@ -1,7 +1,7 @@
 SPECIFICATION MCSpec
 CONSTANTS
-  TimeBound = 4
-  MCMaxP = 3
+  TimeBound = 3
+  MCMaxP = 2
   MCHour = 1
   MCRetry = 2
   MCScheds = {"A", "C"}
